@@ -176,8 +176,9 @@ func C01(p *load.Prog, r *oblig.Run) {
 		"to the 400-line covering set of the documented grammar 'level [@ptr@] TAG [value]'. (R01.b) SimpleNode.GEDCOMLine is evaluated abstractly (placeholders for pointer/tag/value, empty and non-empty, " +
 		"indent <0, 1 and 2 digits) and the resulting templates must be exactly that grammar. (R01.c) The tag->kind cascade of newNodeWithChildren is extracted from SSA and compared with the tag each kind's " +
 		"constructor hard-wires (27 kinds), value/pointer arguments must be the decoder's own value/pointer, the fallback must be the plain node with the same tag/value/pointer and the pointer store must cover every specialised kind. " +
-		"(R01.d) The BOM write under HasBOM dominates every node write in Encode, and Decode stores the consumed BOM flag before reading lines."
-	r.NotDecided = "equality of values, child order and nesting for all forests (the recursion of renderNode/Decode and the level arithmetic being inverse is C02's clause and a runtime universal); line-break handling."
+		"(R01.d) The BOM write under HasBOM dominates every node write in Encode, and Decode stores the consumed BOM flag before reading lines. " +
+		"(R01.f) Path rule over Encoder.renderNode and Encoder.Encode: every successful path writes node.GEDCOMLine(level) exactly once before a loop that walks all of node.Nodes() in index order, every iteration path recurses into the element once at level+1 (or NoIndent), the loops are only left early with an error; Encode does the same over document.Nodes(). The line value reaches the node constructor from its capture group without passing through a call (R01.a)."
+	r.NotDecided = "equality of values, child order and nesting for all forests as a whole (decided here are the structural halves: the encoder's traversal R01.f and the decoder's attach discipline R02.*, which this check runs too); line-break handling."
 	r.Assumptions = []string{"regexp/syntax and Go's regexp agree on the extracted constant pattern", "fmt.Sprintf on the extracted constant formats behaves as documented"}
 	r.Rule("R01.a", "the line reader's pattern accepts the documented line grammar and parseLine routes each group to the right field", 400)
 	r.Rule("R01.b", "the line writer emits exactly 'level [@ptr@] TAG [value]'", 12)
@@ -196,6 +197,9 @@ func C01(p *load.Prog, r *oblig.Run) {
 	c01Registry(p, r)
 	c01BOM(p, r)
 	c01Family(p, r)
+	c01Encoder(p, r)
+	// the decoder half of the round trip: C02's loop rules (R02.*) are obligations of C01 as well
+	c02Rules(p, r)
 }
 
 // c01Family: in Decode, the *FamilyNode handed to parseLine is a loop-carried
@@ -376,6 +380,18 @@ func resolveLineGroups(p *load.Prog, parse *ssa.Function, sub *ssa.Call) (lineGr
 	// value
 	base, k, ok = su.ElemOf(nn.Call.Args[vi])
 	if !ok || base != ssa.Value(sub) {
+		// a call applied to a submatch group: the value is rewritten between the pattern and the constructor
+		if vc, isCall := nn.Call.Args[vi].(*ssa.Call); isCall {
+			for _, a := range vc.Call.Args {
+				if b2, k2, ok2 := su.ElemOf(a); ok2 && b2 == ssa.Value(sub) {
+					name := "a function value"
+					if cal := vc.Call.StaticCallee(); cal != nil {
+						name = cal.String()
+					}
+					return g, fmt.Sprintf("VALUE:group %d passes through %s before it reaches the node constructor", k2, name)
+				}
+			}
+		}
 		return g, "value argument of newNode is not a submatch group"
 	}
 	g.value = int(k)
@@ -499,6 +515,10 @@ func c01Reader(p *load.Prog, r *oblig.Run) {
 	lg, why := resolveLineGroups(p, parse, sub)
 	if why == "TRIM" {
 		r.Add("R01.a", "pointer trimming", p.Pos(parse.Pos()), "trimming of the pointer group").Fail("parseLine no longer trims exactly the leading '@' and the trailing '@ ' from the pointer group ([1:len-2])")
+		return
+	}
+	if strings.HasPrefix(why, "VALUE:") {
+		r.Add("R01.a", "line value", p.Pos(parse.Pos()), "the value group reaches the node constructor unchanged").Fail("the line value is rewritten while it is read (" + strings.TrimPrefix(why, "VALUE:") + "): the writer emits values verbatim, so a value the rewrite changes does not survive encode/decode")
 		return
 	}
 	if why != "" {
